@@ -186,6 +186,11 @@ def generate(rng, n, tier):
                     c["index"] = [rng.randint(-k, k + 1) if k else rng.randint(-1, 1) for _ in range(m)]
                 c["nullable"] = rng.random() < 0.6
             yield c
+        elif kind == "norms" and rng.random() < 0.2:
+            # a 2-D array: the norm is entry-wise (all entries when axis is None, along the axis otherwise), never a matrix norm
+            r_, c_ = rng.randint(1, 3), rng.randint(1, 4)
+            yield dict(kind=kind, which="Lnorm2d", v=[_samples(rng, c_) for _ in range(r_)], p=rng.choice([0, 1, 1, 2, 2, 3, "inf", 0.5]),
+                       axis=rng.choice([None, None, 0, 1]))
         elif kind == "norms":
             which = rng.choice(["Lnorm", "Lnorm", "dist", "dist"])
             if which == "Lnorm":
@@ -309,6 +314,13 @@ def run_impl(case):
         out = dict(order=order, r=_try(lambda: M.impose_collapse(arg, x, w)))
         assert x == case["x"] and w == case["w"], "impose_collapse edited its inputs"
         return out
+    if k == "norms" and case["which"] == "Lnorm2d":
+        import numpy as _np
+        p = {"inf": math.inf}.get(case["p"], case["p"])
+        def _f():
+            r = D.Lnorm(_np.array(case["v"], dtype=float), p, axis=case["axis"])
+            return [float(t) for t in _np.ravel(r)]
+        return dict(r=_try(_f))
     if k == "norms":
         if case["which"] == "Lnorm":
             p = case["p"]
@@ -639,6 +651,18 @@ def oracle(case, obs):
                 out.append(_fail("impose_collapse_zeroes_exactly", site, "untouched-weight-changed", dict(pairs=raw, w=r[1])))
             if sum(wt) != 0 and not _close(_ref_mean(y, wt), mu):
                 out.append(_fail("impose_collapse_keeps_weighted_mean", site, "mean", dict(y=y, w=r[1], want=float(mu))))
+    elif k == "norms" and case["which"] == "Lnorm2d":
+        r, p, ax = obs["r"].get("v"), case["p"], case["axis"]
+        rows = [[abs(F(t)) for t in row] for row in case["v"]]
+        groups = [[t for row in rows for t in row]] if ax is None else ([list(col) for col in zip(*rows)] if ax == 0 else rows)
+        def nrm(g):
+            if p == 0: return float(sum(1 for t in g if t != 0))
+            if p == "inf": return float(max(g))
+            if p == 1: return float(sum(g))
+            return float(sum(float(t) ** p for t in g)) ** (1.0 / p)
+        want = [nrm(g) for g in groups]
+        if r is None or len(r) != len(want) or any(not _close(a, F(b)) for a, b in zip(r, want)):
+            out.append(_fail("Lnorm_is_textbook", "distance.Lnorm", "value-2d", dict(v=case["v"], p=p, axis=ax, got=obs["r"], want=want)))
     elif k == "norms":
         r = obs["r"]["v"]
         if case["which"] == "Lnorm":
@@ -876,6 +900,8 @@ def coq_terms(case, obs):
                 return []
             ps = "(%s : list (Z * Z))" % lst(["(%s, %s)" % (zlit(i), zlit(j)) for i, j in obs["order"]])
             T.append("oqll false (impose_collapse NumQ %s %s %s) %s" % (ps, x, w, _oqll(r)))
+    elif k == "norms" and case["which"] == "Lnorm2d":
+        pass      # oracle only
     elif k == "norms":
         r = obs["r"]["v"]
         if case["which"] == "Lnorm" and case.get("tiny"):
